@@ -19,7 +19,7 @@ META = {
     'level_text': (
         'Runtime oracle on a native mount: seeded histories of OPEN (three syntaxes, reclen 1..128), FIELD (full and partial '
         'layouts, re-FIELD), LSET/RSET, PUT/GET with explicit (literal, %, !, # variable) and implicit record numbers, gaps of '
-        '1..40 records beyond the end, repeats, 1-3 files open together, CLOSE/reopen. Checked after every step: FIELD variables '
+        '1..40 records beyond the end, repeats, 1-3 files open together, CLOSE/reopen under the same or another LEN and file number; record contents over all 256 byte values weighted to 1A/00/0D/0A/FF at field, record and file ends. Checked after every step: FIELD variables '
         '= model buffer after GET (bytes last PUT, zeros for unwritten records below the end) and after LSET/RSET; LOF = reclen x '
         'highest record written; LOC = last record accessed; record numbers outside 1..2^25 give error 63 and change nothing '
         'observable; host file bytes = model image after CLOSE. Directed core (gap reproducers incl. the D5 shape reclen 2 / one '
@@ -29,12 +29,12 @@ META = {
         'beyond the end of the file (LOC, LOF and the following implicit position ARE judged), buffer contents right after OPEN (the model treats them as unknown until a GET or a '
         'complete LSET), LOC before the first access, fractional record numbers, record numbers 2^25+1 .. 2^25+3 (their single-'
         'precision value is 2^25), PUT at record numbers that would need files above a few hundred KB (the upper bound 2^25 is '
-        'exercised with GET only), different record lengths on one file, two numbers on the same file (C26).'),
+        'exercised with GET only), record lengths that do not divide the file length on re-OPEN, two numbers on the same file (C26).'),
     'rule': ('case = one history (files with reclen and FIELD layouts, list of operations with operands); distinct by the expanded '
              'history; non-trivial = at least one PUT and one GET'),
     'design_ref': 'DESIGN.md section 4 C25',
     'assumptions': ['host file I/O through Python is correct', 'LSET/RSET = left/right justify, blank pad, truncate on the right'],
-    'require_counters': {'any': ['puts', 'gets', 'gets_beyond_end', 'implicit_after_get_beyond_end', 'gaps_written', 'gap_records_read_zero', 'implicit_positions', 'bad_recno_refused',
+    'require_counters': {'any': ['reopens_of_file_ending_in_1A', 'reopens_with_other_reclen', 'puts', 'gets', 'gets_beyond_end', 'implicit_after_get_beyond_end', 'gaps_written', 'gap_records_read_zero', 'implicit_positions', 'bad_recno_refused',
                                  'reopens', 'host_images_compared']},
     'timeout': {'quick': 900, 'thorough': 10800},
 }
@@ -72,12 +72,26 @@ def _layout(rng, reclen, fno, gen, full):
     return [('%s%d%s$' % ('ABCD'[k], fno, 'X' * gen), w) for k, w in enumerate(widths)]
 
 
+SPECIAL = b'\x1a\x00\r\n\xff'     # end-of-file byte, NUL, CR, LF, 0xFF: weighted at field / record / file ends
+
+
 def _rand_data(rng, w):
     n = rng.choice([0, 1, w - 1, w, w, w + 1, w + 5, rng.randint(0, w + 3)])
     n = max(0, min(255, n))
-    if rng.random() < 0.5:
-        return bytes(rng.getrandbits(8) for _ in range(n))
-    return bytes(rng.choice(b'abcdefgh 0123\x00\xff') for _ in range(n))
+    x = rng.random()
+    if x < 0.45:
+        data = bytes(rng.getrandbits(8) for _ in range(n))
+    elif x < 0.75:
+        data = bytes(rng.choice(b'abcdefgh 0123\x00\xff') for _ in range(n))
+    else:
+        data = bytes(rng.choice(SPECIAL) for _ in range(n))
+    if rng.random() < 0.4:
+        # a special byte exactly at the end of the field (the field is filled completely), and often at its start
+        n = max(w, 1)
+        data = (data + bytes(rng.getrandbits(8) for _ in range(n)))[:n - 1] + bytes([rng.choice(SPECIAL)])
+        if rng.random() < 0.4:
+            data = bytes([rng.choice(SPECIAL)]) + data[1:]
+    return data
 
 
 BAD_RECNOS = ['0', '-1', '-32768', '33554440', '4E7', '1E10', '2147483648', '-1E10', '33554436']
@@ -96,6 +110,13 @@ def gen_history(rng):
         reclen = images[name].reclen if name in images else _rand_reclen(rng)
         if name not in images:
             images[name] = M.FileImage(reclen)
+        elif images[name].highest and rng.random() < 0.3:
+            # re-open with another record length that divides the file length (so LOF = reclen x records stays pinned)
+            total = images[name].lof()
+            divs = [d for d in range(1, 129) if total % d == 0 and d != reclen]
+            if divs:
+                reclen = rng.choice(divs)
+                images[name] = images[name].reshaped(reclen)
         ch = chans[fno] = M.Channel(images[name])
         full = images[name].highest == 0 or rng.random() < 0.7
         lay = _layout(rng, reclen, fno, 0, full)
@@ -279,6 +300,13 @@ def run_history(box, case, res):
                 images[name] = M.FileImage(reclen)
             else:
                 res.count('reopens')
+                if images[name].reclen != reclen:
+                    images[name] = images[name].reshaped(reclen)
+                    res.count('reopens_with_other_reclen')
+                if images[name].image()[-1:] in (b'\x1a', b'\x00', b'\r', b'\n', b'\xff'):
+                    res.count('reopens_of_file_ending_in_special_byte')
+                if images[name].image()[-1:] == b'\x1a':
+                    res.count('reopens_of_file_ending_in_1A')
             ch = chans[fno] = M.Channel(images[name])
             ch.name = name
             nm = name.encode()
@@ -451,6 +479,22 @@ def directed_cases():
                                 {'op': 'get', 'f': 1, 'r': r + 1, 'form': 'lit'}, {'op': 'get', 'f': 1, 'r': r, 'form': 'lit'}]
                     ops.append({'op': 'close', 'f': 1})
                     cases.append({'ops': ops})
+    # files whose last byte is a special byte: CLOSE, re-OPEN (same LEN / other LEN / other number), read back, re-CLOSE
+    for last in SPECIAL:
+        for reclen, reclen2 in ((1, 1), (4, 4), (4, 2), (4, 8), (128, 64), (3, 6)):
+            for nrec in (2, 4):
+                ops = [{'op': 'open', 'f': 1, 'name': 'S.DAT', 'reclen': reclen, 'syntax': 0, 'layout': [('A1$', reclen)]}]
+                for r in range(1, nrec + 1):
+                    body = bytes([0x40 + r]) * (reclen - 1) + bytes([last])
+                    ops += [{'op': 'rset', 'f': 1, 'var': 'A1$', 'data': body}, {'op': 'put', 'f': 1, 'r': r, 'form': 'lit'}]
+                nrec2 = nrec * reclen // reclen2
+                ops += [{'op': 'close', 'f': 1},
+                        {'op': 'open', 'f': 2, 'name': 'S.DAT', 'reclen': reclen2, 'syntax': 1, 'layout': [('A2$', reclen2)]},
+                        {'op': 'get', 'f': 2, 'r': nrec2, 'form': 'lit'}, {'op': 'get', 'f': 2, 'r': 1, 'form': 'lit'},
+                        {'op': 'close', 'f': 2},
+                        {'op': 'open', 'f': 1, 'name': 'S.DAT', 'reclen': reclen, 'syntax': 2, 'layout': [('A1$', reclen)]},
+                        {'op': 'get', 'f': 1, 'r': nrec, 'form': 'lit'}, {'op': 'put', 'f': 1, 'r': nrec, 'form': 'lit'}, {'op': 'close', 'f': 1}]
+                cases.append({'ops': ops})
     # record number range
     ops = [{'op': 'open', 'f': 1, 'name': 'B.DAT', 'reclen': 4, 'syntax': 0, 'layout': [('A1$', 4)]},
            {'op': 'lset', 'f': 1, 'var': 'A1$', 'data': b'data'}, {'op': 'put', 'f': 1, 'r': 1, 'form': 'lit'}]
